@@ -373,6 +373,119 @@ func (s *spec) eligible(w *engine.World, ctx sdk.Context, gid uint64) int {
 	return n
 }
 
+// listedEligible counts the members of a group that the bandtss module lists as active and that hold
+// a nonce pair: what the module itself promises can sign.
+func (s *spec) listedEligible(w *engine.World, ctx sdk.Context, gid uint64) int {
+	g := s.groups[gid]
+	if g == nil {
+		return 0
+	}
+	n := 0
+	for _, a := range g.Accounts {
+		mb, err := w.App.BandtssKeeper.GetMember(ctx, a.Address, tss.GroupID(gid))
+		q := w.App.TSSKeeper.GetDEQueue(ctx, a.Address)
+		if err == nil && mb.IsActive && q.Head < q.Tail {
+			n++
+		}
+	}
+	return n
+}
+
+// activity snapshots the activity flags of every membership "address/group": the tss member record
+// and, where the bandtss module lists the member, its mirror.
+func (s *spec) activity(w *engine.World, ctx sdk.Context) (tssAct, listed map[string]bool) {
+	tssAct, listed = map[string]bool{}, map[string]bool{}
+	for gid, g := range s.groups {
+		ms, err := w.App.TSSKeeper.GetGroupMembers(ctx, tss.GroupID(gid))
+		if err != nil {
+			continue
+		}
+		for _, mb := range ms {
+			tssAct[fmt.Sprintf("%s/%d", mb.Address, gid)] = mb.IsActive
+		}
+		for _, a := range g.Accounts {
+			if mb, err := w.App.BandtssKeeper.GetMember(ctx, a.Address, tss.GroupID(gid)); err == nil {
+				listed[fmt.Sprintf("%s/%d", a.Address.String(), gid)] = mb.IsActive
+			}
+		}
+	}
+	return tssAct, listed
+}
+
+// role names a membership relative to the transition for fingerprints.
+func (s *spec) role(m *model, cur uint64, inc uint64, key string) string {
+	gid, _ := strconv.ParseUint(key[strings.LastIndex(key, "/")+1:], 10, 64)
+	switch {
+	case gid == cur:
+		return "current-group"
+	case inc != 0 && gid == inc:
+		return "incoming-group"
+	}
+	return "other-group"
+}
+
+// checkActivity compares two activity snapshots: a membership may be switched off only if it is in
+// `off` (it missed a signing of ITS OWN group whose period ended) and switched on only if it is `on`
+// (it activated itself for that group).  Nothing that happens to another group's signing or membership
+// may touch it.
+func (s *spec) checkActivity(m *model, cur, inc uint64, bt, bl, at, al map[string]bool, off map[string]bool, on string, st *engine.StepResult, ev string) {
+	for i, layer := range []string{"tss", "bandtss"} {
+		before, after := bt, at
+		if i == 1 {
+			before, after = bl, al
+		}
+		keys := make([]string, 0, len(before))
+		for k := range before {
+			keys = append(keys, k)
+		}
+		sort.Strings(keys)
+		for _, k := range keys {
+			a, ok := after[k]
+			if !ok || a == before[k] {
+				continue
+			}
+			if !a && !off[k] {
+				st.Violate("membership-deactivated-without-missing-a-signing-of-its-own-group:"+layer+":"+s.role(m, cur, inc, k),
+					"%s record of %s switched off by %s although it missed no signing of that group", layer, k, ev)
+			}
+			if a && k != on {
+				st.Violate("membership-activated-without-its-own-activation:"+layer+":"+s.role(m, cur, inc, k),
+					"%s record of %s switched on by %s", layer, k, ev)
+			}
+		}
+	}
+}
+
+// timeouts lists the memberships "address/group" that miss a signing whose period ends with the
+// block being ended (given: the tss module's expiration queue, processed in order up to the first
+// entry that has not expired) and that the bandtss module lists for that group.
+func (s *spec) timeouts(w *engine.World, ctx sdk.Context, listed map[string]bool) map[string]bool {
+	tk := w.App.TSSKeeper
+	off := map[string]bool{}
+	for _, se := range tk.GetSigningExpirations(ctx) {
+		sa, err := tk.GetSigningAttempt(ctx, se.SigningID, se.SigningAttempt)
+		if err != nil {
+			continue
+		}
+		if sa.ExpiredHeight > uint64(ctx.BlockHeight()) {
+			break
+		}
+		sg, err := tk.GetSigning(ctx, se.SigningID)
+		if err != nil {
+			continue
+		}
+		for _, am := range sa.AssignedMembers {
+			if !tk.HasPartialSignature(ctx, se.SigningID, sa.Attempt, am.MemberID) {
+				k := fmt.Sprintf("%s/%d", am.Address, sg.GroupID)
+				if _, ok := listed[k]; ok {
+					off[k] = true
+				}
+			}
+		}
+	}
+	return off
+}
+
 func (s *spec) threshold(gid uint64) int {
 	if g := s.groups[gid]; g != nil {
 		return int(g.T)
@@ -637,6 +750,12 @@ func (s *spec) Step(w *engine.World, ctx sdk.Context, mm engine.Model, ev string
 	}
 	now := ctx.BlockTime()
 	pCur := uint64(bk.GetCurrentGroup(ctx).GroupID)
+	pInc := uint64(0)
+	if m.Tr != nil {
+		pInc = m.Tr.Incoming
+	}
+	actT, actL := s.activity(w, ctx)
+	activated := ""
 	switch parts[0] {
 	case "propose":
 		kind := parts[1]
@@ -802,6 +921,9 @@ func (s *spec) Step(w *engine.World, ctx sdk.Context, mm engine.Model, ev string
 		i, _ := strconv.Atoi(parts[2])
 		res := w.Tx(ctx, 0, bandtsstypes.NewMsgActivate(s.groups[gid].Accounts[i].Address.String(), tss.GroupID(gid)))
 		st.Outcome = "act:" + res.ErrName()
+		if res.OK() {
+			activated = fmt.Sprintf("%s/%d", s.groups[gid].Accounts[i].Address.String(), gid)
+		}
 	case "req", "reqgov":
 		s.stepRequest(w, ctx, m, parts[0], &st)
 		if st.Stop {
@@ -852,6 +974,8 @@ func (s *spec) Step(w *engine.World, ctx sdk.Context, mm engine.Model, ev string
 		if cCur := uint64(bk.GetCurrentGroup(ctx).GroupID); cCur != pCur {
 			st.Violate("group-changed-outside-block-end", "current group %d -> %d by %s", pCur, cCur, ev)
 		}
+		aT, aL := s.activity(w, ctx)
+		s.checkActivity(m, pCur, pInc, actT, actL, aT, aL, nil, activated, &st, ev)
 	}
 	s.compare(w, ctx, m, &st, ev)
 	return ctx, st
@@ -882,8 +1006,10 @@ func (s *spec) stepRequest(w *engine.World, ctx sdk.Context, m *model, kind stri
 	}
 	inE := m.Tr != nil && m.Tr.Status == 'E'
 	eligCur, eligInc := 0, 0
+	listedCur := 0
 	if m.Cur != 0 {
 		eligCur = s.eligible(w, ctx, m.Cur)
+		listedCur = s.listedEligible(w, ctx, m.Cur)
 	}
 	if inE {
 		eligInc = s.eligible(w, ctx, m.Tr.Incoming)
@@ -895,7 +1021,8 @@ func (s *spec) stepRequest(w *engine.World, ctx sdk.Context, m *model, kind stri
 		phase = statusName(m.Tr.Status)
 	}
 	st.Outcome = kind + ":" + phase + ":" + res.ErrName()
-	curOK := m.Cur != 0 && eligCur >= s.threshold(m.Cur)
+	// what the module lists as active (on the unchanged tree identical to the tss flags)
+	curOK := m.Cur != 0 && (eligCur >= s.threshold(m.Cur) || listedCur >= s.threshold(m.Cur))
 	incOK := inE && eligInc >= s.threshold(m.Tr.Incoming)
 	if !res.OK() {
 		if tk.GetSigningCount(ctx) != before {
@@ -904,8 +1031,8 @@ func (s *spec) stepRequest(w *engine.World, ctx sdk.Context, m *model, kind stri
 		// a request that the current group alone could serve must not be refused because a
 		// transition awaits execution (whatever the condition of the incoming group)
 		if inE && curOK {
-			st.Violate("request-refused-while-transition-awaits-execution", "current group %d has %d eligible members (threshold %d), incoming group %d has %d; request refused: %v",
-				m.Cur, eligCur, s.threshold(m.Cur), m.Tr.Incoming, eligInc, res.Err)
+			st.Violate("request-refused-while-transition-awaits-execution", "current group %d has %d eligible members (%d listed active with nonces; threshold %d), incoming group %d has %d; request refused: %v",
+				m.Cur, eligCur, listedCur, s.threshold(m.Cur), m.Tr.Incoming, eligInc, res.Err)
 		}
 		return
 	}
@@ -1019,11 +1146,26 @@ func (s *spec) oneBlock(w *engine.World, ctx sdk.Context, m *model, dt time.Dura
 			hoAttempt = sg.CurrentAttempt
 		}
 	}
+	pInc := uint64(0)
+	if m.Tr != nil {
+		pInc = m.Tr.Incoming
+	}
+	actT, actL := s.activity(w, ctx)
+	off := s.timeouts(w, ctx, actL)
 
 	next, br := w.Block(ctx, 1, dt)
 	if br.Halt != "" {
 		st.Violate("block-halt", "%s", br.Halt)
 		return ctx, false
+	}
+	{
+		aT, aL := s.activity(w, next)
+		s.checkActivity(m, pCur, pInc, actT, actL, aT, aL, off, "", st, "block end")
+		for k := range off {
+			if v, ok := aT[k]; ok && !v && actT[k] {
+				st.Saw("member-deactivated-after-missing-signing:" + s.role(m, pCur, pInc, k))
+			}
+		}
 	}
 
 	// ---- reference model of the block end ----
